@@ -309,7 +309,7 @@ ADDENDA10 = {
     "C04": ("; width rule for index products in generated C (shared with C03)", " Also decides that the generated C computes the position of the resampling loads in 64 bits, as emulation does."),
     "C05": ("; control-dependence rule for assertion failures on constant values; label-cursor reset between emission passes; step-count rules for rotation and shift searches", " Also decides that no assertion on the compile path is controlled by a program constant's value, that a back end that emits twice resets its label cursor, and that loops searching rotations or powers of two count their steps."),
     "C06": ("; case distinction of the 2-D row step for pointers kept in memory", " Also decides that the row step of 2-D programs tells pointers kept in the executor from pointers kept in a register (the inner loop advances them in different places)."),
-    "C07": ("; finite evaluation of the x86 constant loaders for 8-byte constants whose low half is a special-cased 32-bit pattern", " Also decides that an 8-byte constant is never loaded through a 32-bit special case without its upper half."),
+    "C07": ("; finite evaluation of the x86 constant loaders for 8-byte constants whose low half is a special-cased 32-bit pattern; must-precede rule for clearing declared alignment before the head region", " Also decides that an 8-byte constant is never loaded through a 32-bit special case without its upper half, and that the head region of the x86 loops clears the declared alignment of the arrays it moves."),
     "C11": ("; must-definition of destination and scratch registers in two-operand (SSE/MMX) rules, with the shift-out idiom modelled (shared with C17); provenance rule for the compiler's flag word", " Also decides that an SSE/MMX rule reads no register nobody wrote, and that compiler->target_flags is the request's flag word."),
     "C12": ("; line-termination rule for directly written listing fragments", " Also decides that no directly written listing fragment can swallow the first instruction of the deferred instruction text."),
     "C13": ("; name-blindness of the constructors the bytecode reader calls with placeholder names", " Also decides that re-creating several variables under one placeholder name cannot lose any."),
